@@ -496,6 +496,18 @@ def run(ctx):
     # the clock function is replaced between calls
     jobs += [(2, depth - 1, 100, 'fresh-clock'), (None, depth - 2, 0, 'fresh-clock')]
     jobs += [(2, depth - 2, 100, 'utc-override'), (2, depth - 1, 100, 'pickle'), (None, depth - 2, 0, 'pickle')]
+    # constructor clause, legal side: None, zero and positive durations make a watch
+    from oslo_utils import timeutils as _tu
+    refused = set()
+    for d in sorted({j[0] for j in jobs} | {0, 0.0}, key=repr):
+        rep.count('evaluations')
+        try:
+            _tu.StopWatch(d)
+        except Exception as e:
+            refused.add(d)
+            rep.fail('ctor-legal-duration-refused', {'duration': d, 'exception': type(e).__name__},
+                     {'ctor_legal': d})
+    jobs = [j for j in jobs if j[0] not in refused]
     res = par.pmap(_explore, jobs)
     for duration, counters, fails, nstates in res:
         rep.counters.update({k: v for k, v in counters.items()
@@ -518,7 +530,8 @@ def run(ctx):
                      {'duration': duration, 'history': f['history'],
                       'origin': f.get('origin', 100), 'shadow': f.get('shadow', False),
                       'mode': f.get('mode') if isinstance(f.get('mode'), str) else None})
-    tick_jobs = [(d, t, 4 if ctx.thorough else 3) for d in (2.0, 0.5, None) for t in (0.25, 1.0)]
+    tick_jobs = [(d, t, 4 if ctx.thorough else 3) for d in (2.0, 0.5, None) for t in (0.25, 1.0)
+                 if d not in refused]
     for n, probs in par.pmap(_tick_job, tick_jobs):
         rep.count('ticking_clock_histories', n)
         rep.count('evaluations', n)
@@ -562,6 +575,12 @@ def replay(payload):
         d, t, hist = payload['tick']
         p = _tick_run(d, t, [tuple(a) for a in hist])
         return {'violates': p is not None, 'problem': p}
+    if 'ctor_legal' in payload:
+        try:
+            timeutils.StopWatch(payload['ctor_legal'])
+            return {'violates': False, 'observed': 'constructed'}
+        except Exception as e:
+            return {'violates': True, 'observed': type(e).__name__}
     if 'ctor' in payload:
         try:
             timeutils.StopWatch(payload['ctor'])
